@@ -129,3 +129,10 @@ Proof.
   - destruct (find_nonimpl r a) eqn:En; [discriminate|]. exact (find_nonimpl_none r a En).
   - destruct (bdd_eqb_spec r a) as [E|E]; [exact E|discriminate].
 Qed.
+
+Theorem find_diff_any_some r m w : find_diff_any r m = Some w -> beval (lookup w) r <> beval (lookup w) m.
+Proof.
+  unfold find_diff_any. destruct (Nat.leb _ 14); [apply find_diff_some|].
+  unfold find_diff_big. destruct (negb (Bool.eqb _ _)) eqn:E; [|discriminate]. intros H. injection H as <-.
+  apply negb_true_iff, eqb_false_iff in E. exact E.
+Qed.
